@@ -1,10 +1,8 @@
 """C02: saving is repeatable and never alters the in-memory model."""
-from props import fblock
+from props import fblock, fmfile
 ID = "C02"
 LEVEL = "model_checking"
-HARNESS = [fblock.GEN]
-MODULE = "fblock"
-ENTRIES = fblock.ENTRIES
+MODULES = fmfile.modules()
 prepare = fblock.prepare
 BOUNDS = {
     "quick": {"block_types": "all registered (from Factory.cpp)", "version": "symbolic (file,user,stream) under the loader's acceptance predicate", "count_cap_B": 1, "input_bytes_L": 256, "budget_s_per_type": 8},
@@ -21,8 +19,16 @@ def owns_violation(v):
 
 
 def jobs(tier, seed):
-    return fblock.jobs_for("h_roundtrip", tier, seed)
+    J = fblock.jobs_for("h_roundtrip", tier, seed)
+    for j in J:
+        j["mod"] = "fblock"
+    J += fmfile.jobs("h_file_repeat", tier, extra_args=[1]) + fmfile.jobs("h_file_repeat", tier, extra_args=[0])
+    return J
 
 
 def signature(job, v):
+    if job.get("mod") == "fmfile":
+        top = next((f for f in v["stack"] if "nifly" in f), "")
+        rc = v.get("user", {}).get("rc")
+        return "%s:%s:%s%s" % (job["entry"], v["aid"], top[:50], "" if rc in (None, 0) else ":loadfailed")
     return "%s:%s:%s" % (job["entry"], fblock.type_of(job), v["aid"])
